@@ -235,6 +235,11 @@ def run(ctx, report):
                              witness='expr_simp(X ^ C) then expr_simp(C ^ X) with X = Compose(A[0:8], A[8:16], B)')
     report.analysed['simplifier_field_stores'] = n_st
 
+    # ---------------------------------------------------------------- D5 the fixpoint test of the simplifier uses an exact equality
+    R5 = report.rule('C13.D5', 'the simplifier stops when e_new == e: == must be exact (no node equals a proper prefix of itself)', floor=8)
+    from .c15 import eq_rule
+    eq_rule(ctx, R5)
+
 
 MUTANTS = [
     ('merge-slice-nocopy', 'miasmx/expression/expression_helper.py', '            out = v[0].copy(), v[1], v[2]\n', '            out = v[0], v[1], v[2]\n', 'C13.D4'),
